@@ -193,7 +193,7 @@ def centroid(data, dx=None, unit='spatial'):
         if unit == spatial, referenced to the origin
 
     """
-    center = (int(np.ceil(c/2)) for c in data.shape)
+    center = (c // 2 for c in data.shape)  # the origin sample of an axis of length n is index n//2
     com = ndimage.center_of_mass(data)
     if unit != 'spatial':
         return com
